@@ -42,12 +42,12 @@ add("C09", "exploration",
     "DESIGN.md section 5 C09")
 add("C10", "exploration",
     "Seeded search over scenes drawn from the class the property names (well separated, short absences, newcomers only while all visible, permuted detection order) x tracker configurations; identity oracle (animal<->track relation is an injective function over the whole history).",
-    "Scenario class fixed from the statement (separation >= 10 body sizes, absence <= window-2, scores above threshold, body-diagonal nodes visible); runs where C09 fails are left to C09.",
+    "Scenario class fixed from the statement (separation >= 10 body sizes and above the whole clip's motion, absence <= window-2, body-diagonal nodes visible; slow, fast-common-motion and wander modes; late arrivals may start below the new-track threshold, during which no identity is promised and nobody is absent; flat bodies only under IoU without motion across their line); runs where C09 fails are left to C09.",
     "deterministic simulation: seeded scene histories against the real tracker with a ground-truth identity reference model",
     "DESIGN.md section 5 C10")
 
 add("C19", "fault_enumeration",
-    "Whole training runs (ModelTrainer.__init__ + train(), one step, tiny UNet) in forked children on an audited file system. Within each explored configuration the durable state is inspected before every mutating FS event (virtual crash), a set of fixed configurations is additionally killed for real (os._exit) before every event index, and seeded runs add real kills and ENOSPC/EIO at seeded events; configurations themselves are sampled by seed. Artifact oracle (configs equal to supplied/used with key blanked, checkpoints iff requested, chunks deleted) on fault-free runs.",
+    "Whole training runs (ModelTrainer.__init__ + train(), one step, tiny UNet) in forked children on an audited file system. Within each explored configuration the durable state is inspected before every mutating FS event (virtual crash), a set of fixed configurations is additionally killed for real (os._exit) before every event index, and seeded runs add real kills and ENOSPC/EIO at seeded events; configurations themselves are sampled by seed (model type, data framework, tracking on/off/offline, checkpointing, config origin plain/YAML/structured, lr-scheduler and early-stopping shapes incl. null, optimizer, derived crop size, low-memory fallback, login failure, output-folder reuse and resume). Artifact oracle (configs equal to supplied/used with key blanked, final run id = the run logged to, checkpoints iff requested, chunks deleted) on fault-free runs.",
     "Trusts sys.addaudithook to report every mutating FS operation before it executes (file contents only grow between events); wandb replaced by a fake that persists everything it is told; litdata framework, DataLoader workers and GPUs not simulated.",
     "deterministic simulation: crash-point enumeration and disk-fault injection on an interposed file system, byte-scan durability oracle",
     "DESIGN.md section 5 C19")
@@ -71,8 +71,8 @@ add("C18", "exploration",
     "DESIGN.md section 5 C18")
 
 add("C02", "exploration",
-    "Seeded configurations (sizes, size matching, scales of both stages, strides, crop, refinement, batch, dtype, anchor) x scenes in general position, run through the simulated inference stream with both providers around an ideal-network stub that decodes from the tensor it is handed where the content came from; predicted coordinates must match the scene in original-image coordinates within a tolerance derived from the statement, invisible keypoints NaN/0, LabelsReader == VideoReader.",
-    "Trusts the content-decoding stub (closed-form Gaussian bumps from C01's statement, least-squares axis fit) and the derived tolerance (half cell + half-pixel convention + size rounding + 0.6 px); RGB frames; make_labels=False records.",
+    "Seeded configurations (sizes, size matching, scales of both stages, strides, crop, refinement, batch, dtype, anchor) x scenes in general position, run through the simulated inference stream with both providers around an ideal-network stub that decodes from the tensor it is handed where the content came from; predicted coordinates must match the scene in original-image coordinates within a tolerance derived from the statement, invisible keypoints NaN/0, LabelsReader == VideoReader. Also run: label files with two videos of different sizes, empty labelled frames, non-square / non-stride-multiple crops, grayscale blob frames, and the centered-instance model alone on a labels file (ground-truth centroids).",
+    "Trusts the content-decoding stub (closed-form Gaussian bumps from C01's statement, least-squares axis fit) and the derived tolerance (half cell + half-pixel convention + size rounding + 0.6 px); make_labels=False records.",
     "deterministic simulation of the inference stream with an ideal-network stub and content-decoding oracle",
     "DESIGN.md section 5 C02")
 
@@ -82,7 +82,7 @@ add("C03", "exploration",
     "deterministic simulation of the inference stream with an ideal confmap+PAF stub built from the repo's target generators",
     "DESIGN.md section 5 C03")
 add("C12", "exploration",
-    "Refinement check: every seeded plan is executed as a batched stream (real reader thread, SimQueue, real _predict_generator and inference models), as per-frame runs on fresh predictors, and in a permuted order; per frame the instances, values, scores and indices must agree within 1e-4; empty frames, partial last batches, read faults that cut the stream, two-video label files and binding max_instances are stratified in.",
+    "Refinement check: every seeded plan is executed as a batched stream (real reader thread, SimQueue, real _predict_generator and inference models), as per-frame runs on fresh predictors, and in a permuted order; per frame the instances, values, scores and indices must agree within 1e-4; empty frames, partial last batches, read faults that cut the stream, two-video label files (also sharing one file name), whole-empty batches, border scenes, tiny PAF grids, binding max_instances and the top-down sub-modes (both models, centered-instance model with ground-truth centroids, centroid model with ground-truth peaks on sparsely labelled frames) are stratified in.",
     "Stub networks are pure per-sample functions so any dependence found is sleap-nn's; bottom-up max_instances (make_labels path) not checkable here.",
     "deterministic simulation: batched stream vs per-frame reference runs (refinement against a sequential reference)",
     "DESIGN.md section 5 C12")
